@@ -106,6 +106,10 @@ COMPONENT_SPECS = [
     {"kind": "acl", "deny": True, "allow_list": ["2001:db8::/32", "::1"]},
     {"kind": "acl", "deny": True, "allow_list": ["2001:db8::/32", "10.0.0.0/8"]},
     {"kind": "acl", "deny": False, "allow_list": ["2001:db8::/32", "198.51.100.0/24"]},
+    # certificate rules whose prefix is a plain string prefix, not a directory: it ends inside a segment
+    {"kind": "cert", "allow_fp": None, "prefix": "/priv"},
+    {"kind": "cert", "allow_fp": "other", "prefix": "/private/d"},
+    {"kind": "cert", "allow_fp": None, "prefix": "/private/up"},
 ]
 
 
